@@ -456,7 +456,7 @@ pub fn c03_run(ctx: &mut Ctx, case: &TokCase) {
     // character table: characters of the alphabet, range borders +-1; thorough: the whole BMP
     let mut probe: Vec<char> = ALPHA.to_vec();
     for r in &spec.ranges {
-        for c in [r.lo.saturating_sub(1), r.lo, r.hi, r.hi + 1] {
+        for c in [r.lo.saturating_sub(1), r.lo, r.hi, r.hi + 1, 0x10000 + r.lo, 0x20000 + r.hi, 0x100000 + r.lo] {
             if let Some(ch) = char::from_u32(c) {
                 probe.push(ch);
             }
